@@ -86,6 +86,7 @@ def _exporter(ctx, model):
 
     _export_constant(ctx, model, mp)
     nt = model.nodes
+    emitted = {}        # ast class name -> where the exporter builds it
     for cls, (kind, sym, fields) in sorted(DENOT.items()):
         try:
             n = nt.get(cls)
@@ -110,6 +111,52 @@ def _exporter(ctx, model):
                    f"{cls} exported as {why}" if ok else
                    f"PymbolicToASTMapper.{mem.node.name} ({cls}): {why}",
                    {"denotes": sym or kind})
+            contains(rv, lambda t: emitted.setdefault(t[1][4:], where(mem))
+                     and False if t[0] == "call" and isinstance(t[1], str)
+                     and t[1].startswith("ast.") else False)
+    _importer_reads_exporter_output(ctx, model, emitted, sym_of)
+
+
+def _importer_reads_exporter_output(ctx, model, emitted, sym_of):
+    """sibling agreement: every kind of ast node the exporter builds for an
+    evaluable expression has a handler in the importer, and every operator it
+    uses an entry in the importer's tables -- else importing the exported tree
+    raises NotImplementedError"""
+    imp = model.cls("pymbolic.interop.ast:ASTToPymbolic")
+    handlers = set()
+    for k in model.mro(imp):
+        if hasattr(k, "members"):
+            handlers |= {m[4:] for m in k.members if m.startswith("map_")}
+    keys = set()
+    for tname in ("bin_op_map", "unary_op_map", "comparison_op_map",
+                  "bool_op_map"):
+        mem = imp.members.get(tname)
+        if mem is None:
+            continue
+        val = mem.node.value if isinstance(mem.node, ast.AnnAssign) else mem.node
+        if isinstance(val, ast.Dict):
+            keys |= {k.attr for k in val.keys if isinstance(k, ast.Attribute)}
+    n = 0
+    for name, loc in sorted(emitted.items()):
+        py = getattr(ast, name, None)
+        if not (isinstance(py, type) and issubclass(py, ast.AST)):
+            continue
+        if not issubclass(py, (ast.expr, ast.operator, ast.unaryop, ast.boolop,
+                               ast.cmpop)):
+            continue        # keyword, expr_context ...: read by their parent
+        n += 1
+        if issubclass(py, (ast.operator, ast.unaryop, ast.boolop, ast.cmpop)):
+            ok = name in keys
+            what = f"operator ast.{name}"
+        else:
+            ok = name in handlers
+            what = f"ast.{name} nodes"
+        ctx.ob(f"S/importer-reads-exporter/{name}", ok, loc,
+               f"{what}: written by the exporter, read by the importer" if ok else
+               f"the exporter builds {what} but ASTToPymbolic has no "
+               f"{'table entry' if 'operator' in what else 'map_' + name} for "
+               "them: importing an exported tree raises NotImplementedError")
+    ctx.floor("ast node kinds written by the exporter", n, 8)
 
 
 def _export_constant(ctx, model, mp):
